@@ -414,6 +414,28 @@ func propC12(c *Ctx) {
 		c.Check("R12.3", "dig.New/filterAGG-from-config", dn.Pos(), okLower, "the integration's aggregation is the configured one (lower-cased)")
 	}
 
+	c.Rule("R12.5", "every read of a filter argument by position is preceded by a proof that the argument list is long enough", 3)
+	{
+		acc := w.Fn("dig", "Filter.Accept")
+		bp := newBProver(w, acc)
+		n := 0
+		for _, o := range bp.obligationsFor(func(t types.Type) bool {
+			sl, ok := t.Underlying().(*types.Slice)
+			if !ok {
+				return false
+			}
+			b, ok := sl.Elem().Underlying().(*types.Basic)
+			return ok && b.Kind() == types.String
+		}) {
+			n++
+			detail := o.desc
+			if !o.ok {
+				detail += " — " + o.detail + ": a filter that carries only a filter_ref (empty filter_arg) panics here"
+			}
+			c.Check("R12.5", fmt.Sprintf("Filter.Accept/arg-index#%d", n), instrPos(o.in), o.ok, detail)
+		}
+	}
+
 	// ---- R12.4 ----------------------------------------------------------
 	c.Rule("R12.4", "every cell value is offered to its column's filter; a row is appended only when the fold accepts", 8)
 	checkEveryCellFiltered(c, "R12.4")
